@@ -1740,17 +1740,17 @@ func TestC10(t *testing.T) {
 	s1.tick1(250 * time.Second)
 	s1.bid1("b1", sdk.NewInt(1000000)) // collateral sold out below the target: the collector covers the rest
 	// emergency-shutdown wind-down, both branches: less than the principal collected / at least the principal collected
-	c1 = c10cfg1{pair: 0, amountIn: sdk.NewInt(1000000), amountOut: sdk.NewInt(1000000), dropTo: 1400000, T: 300, buffer: "1.2", cusp: "0.6", collector: 0}
+	c1 = c10cfg1{pair: 0, amountIn: sdk.NewInt(100000000), amountOut: sdk.NewInt(100000000), dropTo: 1400000, T: 300, buffer: "1.2", cusp: "0.6", collector: 0}
 	if s1 = c10start1(t, f, tr, c1); s1 != nil {
 		s1.tick1(100 * time.Second)
-		s1.bid1("b1", sdk.NewInt(200000))
+		s1.bid1("b1", sdk.NewInt(20000000))
 		s1.esmOn1(true)
 		s1.tick1(100 * time.Second) // window not over: price update only
 		s1.tick1(150 * time.Second) // window over, ESM on: collateral back to the vault module, collected debt burned
 	}
 	if s1 = c10start1(t, f, tr, c1); s1 != nil {
 		s1.tick1(100 * time.Second)
-		s1.bid1("b1", sdk.NewInt(750000))
+		s1.bid1("b1", sdk.NewInt(72000000))
 		s1.esmOn1(true)
 		s1.tick1(250 * time.Second) // collected ≥ principal: principal burned, excess to the collector, collateral to the ESM module
 	}
